@@ -112,7 +112,8 @@ def inline(files, root="a.json", max_depth=40):
 
 
 # -------------------------------------------------------------- strategy
-SAFE_TITLES = ["Widget", "my title", "a1b", "Thing", "widget"]
+# repeated titles are common (pool of few); "<Title>_<n>" collides with the names that de-duplication hands out
+SAFE_TITLES = ["Widget", "my title", "a1b", "Thing", "widget", "Widget", "Widget_1", "widget_1", "Thing_1", "Widget_2"]
 DESCRIPTIONS = ["plain", 'He said "hi"', "back\\slash", 'trailing"', "two\nlines", "", "日本 é", '"""']
 FILES = ["a.json", "b.json", "c.json"]
 
